@@ -27,6 +27,19 @@ pub fn check(r: &RunResult, rep: &mut Report) {
 			Some(i) => i,
 			None => continue,
 		};
+		// bounded attempts, in the statement's own numbers: every request at most 10 transmissions,
+		// every polling phase at most 20 polls => an attempt sends at most 10 x (6 + 22 n + 42) POSTs
+		{
+			let n_ids = w.plan.config.certificates[cert_idx].identifiers.len() as u64;
+			let bound = 10 * (6 + 22 * n_ids + 42);
+			let end_seq = a.end.map(|e| e.seq).unwrap_or(u64::MAX);
+			let sendseq = common::tx_send_seq(w);
+			let single = w.plan.config.certificates.len() == 1;
+			let posts: u64 = w.cas.iter().map(|c| c.posts.iter().filter(|p| (p.cert == Some(cert_idx) || (single && p.cert.is_none())) && sendseq.get(&p.tx).map(|s| *s > a.begin.seq && *s < end_seq).unwrap_or(false)).count() as u64).sum();
+			if posts > bound {
+				rep.add(Violation::new("C07", "attempt_unbounded", "", &common::last_class_in(w, a), format!("{} POSTs in one attempt of {} (the statement's bounds allow at most {})", posts, a.cert, bound)));
+			}
+		}
 		let end = match a.end {
 			Some(e) => e,
 			None => {
